@@ -324,9 +324,21 @@ func (g *gen) windows(st Step) []Split {
 	var out []Split
 	switch st.Op {
 	case OpSubscribe:
-		for _, pt := range []string{PtStart, PtInit} {
+		for _, pt := range []string{PtStart, PtInit, PtWFlush} {
 			c := st
 			c.Split = &Split{Point: pt}
+			if pt == PtWFlush {
+				c.Split.Target = st.Sub // inside the creator's start-failure message
+			}
+			if m.PredictReach(c) {
+				out = append(out, *c.Split)
+			}
+		}
+	case OpReleaseStart:
+		p := m.Periods[st.Period]
+		for _, i := range p.Subs {
+			c := st
+			c.Split = &Split{Point: PtWFlush, Target: i}
 			if m.PredictReach(c) {
 				out = append(out, *c.Split)
 			}
